@@ -54,7 +54,7 @@ CHECKS={
         "Trusted: as C01.",
         "DESIGN.md section 4 (C03), 3.4"),
  "C06":("property-based testing (proptest): generated task sets / analyses / limits vs. brute-force evaluation of the published equations over every offset",
-        "The nine analyses are compared (value, Ok/Err and error payload) with a linear-scan evaluation of their equations over every offset A in [0,L) on tabulated RBFs, for generated task sets with jitter, bursts, deadlines of both signs relative to the analysed task, blocking bounds and limits at / just below L and the largest AF. Further sub-checks: scale equivariance at large values, and a slow-convergence stratum (utilisation 1 - 2^-k, L up to 7*10^5, more than 10^4 iteration steps) in which FIFO is compared with the linear scan over every offset. Exploration.",
+        "The nine analyses are compared (Ok value, Ok vs. Err; a panic is a violation) with a linear-scan evaluation of their equations over every offset A in [0,L) on tabulated RBFs, for generated task sets with jitter, bursts, deadlines of both signs relative to the analysed task, blocking bounds and limits at / just below L and the largest AF. Further sub-checks: scale equivariance at large values, and a slow-convergence stratum (utilisation 1 - 2^-k, L up to 7*10^5, more than 10^4 iteration steps) in which FIFO is compared with the linear scan over every offset. Exploration.",
         "Trusted: the harness' transcription of the equations from the doc comments (validated by 0 mismatches on the unchanged tree); RBFs as black boxes.",
         "DESIGN.md section 4 (C06), 3.6"),
  "C18":("property-based testing (proptest), witness search: constructed adversary + generated schedules in the scheduler simulation must attain the bound",
